@@ -455,7 +455,7 @@ func (e *Engine) callModular(fr *Frame, st *State, fc *FuncContract, name string
 		e.ctx.Assume(implies(st.pc, or(eq(r, "0"), and(sx(">", r, pre.top), sx("<=", r, st.top)))))
 	}
 	for _, en := range fc.Ensures {
-		g := e.evalBool(en.Expr, post)
+		g := e.evalClause(en, post, "ensures of "+shortName(name))
 		e.ctx.Assume(implies(st.pc, g))
 	}
 	return res
@@ -987,4 +987,17 @@ func (e *Engine) callDelegate(fr *Frame, st *State, fc *FuncContract, env *Env, 
 		return e.callModular(fr, st, mc, key, msel.Type().(*types.Signature), true, []Val{recv, out}, mres, pos)
 	}
 	return e.callUnknown(fr, st, key, []Val{recv, out}, mres, pos)
+}
+
+// evalClause evaluates a boolean clause and adds the clause text to contract errors.
+func (e *Engine) evalClause(c Clause, env *Env, what string) (t string) {
+	defer func() {
+		if r := recover(); r != nil {
+			if u, ok := r.(unsupported); ok {
+				panic(unsupported{u.msg + " [" + what + ": " + c.Src + "]"})
+			}
+			panic(r)
+		}
+	}()
+	return e.evalBool(c.Expr, env)
 }
